@@ -21,7 +21,7 @@ NODE_ID = {'n1': 1, 'n2': 1, 'n3': 2}
 KNOWS = ['111', '110', '011', '101']
 RULES = ['*', 'n2', 'n3,n1', 'n3,n2,n1']
 LOADS = [10, 40, 70]
-PENDS = [0, 1, 2, 3]
+PENDS = [0, 1, 2, 3, 4]        # 4: two pending requests, on n1 and on n2 (both instances of node A)
 STRATS = ['CONFIG', 'LESS_LOADED', 'MOST_LOADED', 'LOCAL', 'LESS_LOADED_NODE', 'MOST_LOADED_NODE']
 
 
@@ -39,8 +39,8 @@ def build_layout():
                     a = app_name(ki, ri, l, p)
                     tgt, pnd = f'tgt{ki}_{ri}_{l}_{p}', f'pnd{ki}_{ri}_{l}_{p}'
                     xml = f'<application name="{a}"><start_sequence>0</start_sequence><programs>'
-                    if p:
-                        xml += (f'<program name="{pnd}"><identifiers>n{p}</identifiers><start_sequence>1'
+                    for sfx, inst in (((('', p),) if p in (1, 2, 3) else (('a', 1), ('b', 2))) if p else ()):
+                        xml += (f'<program name="{pnd}{sfx}"><identifiers>n{inst}</identifiers><start_sequence>1'
                                 f'</start_sequence><expected_loading>30</expected_loading></program>')
                     xml += (f'<program name="{tgt}"><identifiers>{rule}</identifiers><start_sequence>1'
                             f'</start_sequence><expected_loading>{l}</expected_loading></program>')
@@ -48,8 +48,8 @@ def build_layout():
                     apps_xml.append(xml)
                     for idx, n in enumerate(NODES):
                         # the pending program is listed before the target in its group (start order of the group)
-                        if p:
-                            progs[n].append({'name': pnd, 'groups': [a], 'startsecs': 100000})
+                        for sfx in (([''] if p in (1, 2, 3) else ['a', 'b']) if p else []):
+                            progs[n].append({'name': pnd + sfx, 'groups': [a], 'startsecs': 100000})
                         if k[idx] == '1':
                             progs[n].append({'name': tgt, 'groups': [a]})
     # load programs are distinct per instance (the same process running on two instances would be a conflict)
@@ -181,8 +181,8 @@ class PlacementCluster:
                         dis = bool(proc.supvisors_config.program_config.disabled)
             rec['knows'].append(known)
             rec['disabled'].append(dis)
-        if pend_inst:
-            rec['pend'][pend_inst - 1] = 30
+        for pi in (pend_inst if isinstance(pend_inst, list) else ([pend_inst] if pend_inst else [])):
+            rec['pend'][pi - 1] += 30
         allowed = names if rule == '*' else rule.split(',')
         rec['allowed'] = [int(x[1]) for x in allowed]
         return rec
@@ -200,14 +200,14 @@ class PlacementCluster:
         errs = c.errors
         c.errors = []
         target = 0
-        pend_target = 0
+        pend_targets = []
         for w in pushes:
             ns = w[5][0]
             if ns == f'{a}:{tgt}':
                 target = int(w[3][1])
             elif ns.startswith(f'{a}:pnd'):
-                pend_target = int(w[3][1])
-        rec = self.view(tgt, rule, L, strategy, pend_target)
+                pend_targets.append(int(w[3][1]))
+        rec = self.view(tgt, rule, L, strategy, pend_targets)
         # what is displayed for the target process when nothing was sent
         fatal = False
         pi = c.rpc('n1', 'get_process_info', f'{a}:{tgt}')
